@@ -303,6 +303,7 @@ func (c *Ctx) noteOnce(s string) {
 // MustFn is Fn that records an anchor-missing violation when the symbol is gone.
 func (c *Ctx) MustFn(rule, pkgSuffix, name string) *ssa.Function {
 	f := c.FnOrAbsorber(pkgSuffix, name)
+	setBindCtx(f)
 	if f == nil || f.Blocks == nil {
 		c.Add(rule, "anchor:"+pkgSuffix+"."+name, Violated, "", "reason=anchor-missing: function "+pkgSuffix+"."+name+" not found in the current tree (rule table names it)", false)
 		return nil
